@@ -111,7 +111,11 @@ def _seeding(ck, P, cfg):
             iv = [x for x in lp.children[0].walk() if x.k == "VarDecl" and x.name == a.name]
             cond = X.strip(lp.children[2])
             if iv and iv[0].children and cond.k == "BinaryOperator" and cond.op == "<":
-                lo, hi = X.show(iv[0].children[0]), X.show(cond.children[1])
+                def _res(n_):
+                    n_ = X.strip(n_)
+                    r_ = Q.resolve_local(g, n_) if n_ is not None and n_.k == "DeclRefExpr" and n_.d.get("sc") == "local" else n_
+                    return X.show(r_) if r_ is not None else "?"
+                lo, hi = _res(iv[0].children[0]), _res(cond.children[1])
                 if (lo, hi) in (("lid_thread_first", "lid_thread_end"), ("0", "global_config.lps")):
                     ok = True
                     # and the context initialised is that LP's: lps[i]
